@@ -769,6 +769,26 @@ fn corpus() -> Vec<(String, String)> {
       ),
     ),
     (
+      "corpus:F12 two item definitions of one name, the later one referring to itself".into(),
+      model(
+        r##"
+  <itemDefinition name="tA"><typeRef>string</typeRef></itemDefinition>
+  <itemDefinition name="tA"><typeRef>tA</typeRef></itemDefinition>
+  <decision name="A" id="_a"><variable name="A"/><informationRequirement id="_r1"><requiredInput href="#_i"/></informationRequirement><literalExpression><text>X</text></literalExpression></decision>
+  <inputData name="X" id="_i"><variable typeRef="tA" name="X"/></inputData>"##,
+      ),
+    ),
+    (
+      "corpus:F12 two item definitions of one name, the earlier one referring to itself".into(),
+      model(
+        r##"
+  <itemDefinition name="tA"><typeRef>tA</typeRef></itemDefinition>
+  <itemDefinition name="tA"><typeRef>string</typeRef></itemDefinition>
+  <decision name="A" id="_a"><variable name="A"/><informationRequirement id="_r1"><requiredInput href="#_i"/></informationRequirement><literalExpression><text>X</text></literalExpression></decision>
+  <inputData name="X" id="_i"><variable typeRef="tA" name="X"/></inputData>"##,
+      ),
+    ),
+    (
       "corpus:F12 item definition whose typeRef is itself".into(),
       model(
         r##"
